@@ -95,3 +95,44 @@ package kafka
 //@   loop 0 invariant minBytes == lb.counters[minIndex].bytes
 //@   loop 0 invariant forall j :: 0 <= j && j <= rangeindex + 1 && j < len(lb.counters) ==> minBytes <= lb.counters[j].bytes
 //@   loop 0 decreases len(lb.counters) - rangeindex
+
+//@ property C19
+
+//@ func (*Conn).ReadOffsets
+//@   trusted ASSUMPTION about the broker: the first and last offsets it reports are ordered and non-negative (the exchange itself is covered by C04/C06/C11)
+//@   ensures err == nil ==> 0 <= first && first <= last
+
+//@ func (*Conn).Seek
+//@   mode bv
+//@   let dont = (whence & SeekDontCheck) != 0
+//@   let w = whence &^ SeekDontCheck
+//@   let rerr = result1
+//@   let pos = result0
+//@   ensures w != SeekStart && w != SeekAbsolute && w != SeekEnd && w != SeekCurrent ==> rerr != nil
+//@   ensures rerr != nil ==> pos == 0 && unchanged(c.offset)
+//@   ensures rerr == nil ==> c.offset == pos
+//@   ensures rerr == nil && w == SeekCurrent ==> pos == old(c.offset) + offset
+//@   ensures rerr == nil && w == SeekAbsolute ==> pos == offset
+//@   ensures rerr == nil && w == SeekAbsolute && offset != old(c.offset) && !dont ==> first <= pos && pos <= last
+//@   ensures rerr == nil && w == SeekCurrent && !dont ==> first <= pos && pos <= last
+//@   ensures rerr == nil && w == SeekStart ==> 0 <= offset && offset <= last - first && pos == first + offset
+//@   ensures rerr == nil && w == SeekEnd ==> 0 <= offset && offset <= last - first && pos == last - offset
+//@   ensures dont && (w == SeekAbsolute || w == SeekCurrent) ==> rerr == nil
+//@   ensures w == SeekStart ==> (err == nil && 0 <= offset && offset <= last - first ==> rerr == nil)
+//@   ensures w == SeekEnd ==> (err == nil && 0 <= offset && offset <= last - first ==> rerr == nil)
+//@   ensures w == SeekAbsolute && !dont && offset != old(c.offset) ==> (err == nil && first <= offset && offset <= last ==> rerr == nil)
+//@   modifies c.offset
+
+//@ property C04 C12
+
+//@ func (apiVersionMap).negotiate
+//@   let s = sortedSupportedVersions
+//@   let bmax = apiVersion(v[key].MaxVersion)
+//@   requires forall a, b :: 0 <= a && a < b && b < len(s) ==> s[a] <= s[b]
+//@   requires forall a :: 0 <= a && a < len(s) ==> s[a] >= 0
+//@   ensures result == -1 || result <= bmax
+//@   ensures result != -1 ==> exists a :: 0 <= a && a < len(s) && result == s[a]
+//@   ensures forall a :: 0 <= a && a < len(s) && s[a] <= bmax ==> result != -1 && s[a] <= result
+//@   loop 0 invariant -1 <= i && i < len(s)
+//@   loop 0 invariant forall a :: i < a && a < len(s) ==> s[a] > bmax
+//@   loop 0 decreases i + 1
